@@ -210,3 +210,6 @@ class GenericSubTLV(SubTLV):
 
     def json(self) -> str:
         return f'"unknown-subtlv-{self._subtype}": "{hexstring(self._packed)}"'
+
+    def __str__(self) -> str:
+        return f'unknown-subtlv-{self._subtype} {hexstring(self._packed)}'
